@@ -8,7 +8,7 @@ tie   : (1) stream `proto`: random call scripts drive the REAL geos::util::Inter
             step by step; every observable (check(), previous callback, threw?) is compared with the model.
         (2) stream `ops` (ASan+LSan build): for ~45 interruptible operations of the C API (+ the old RelateOp via
             the C++ API) and generated inputs: a clean run with a counting callback gives N and the clean result;
-            then for k in a stratified subset of 1..N (all k for small N) the callback requests at poll k, plus
+            then for k in a stratified subset of 1..N (all k when N <= 7 quick / N <= 32 thorough) the callback requests at poll k, plus
             request-before-call, cancelled request, callback-cancel, GEOS_init_r-cancel and k = N+1.  Observed:
             error value returned, message contains "nterrupt", polls executed, flag after the call, a following
             benign call (no GEOS_interruptCancel in between) completes with the clean bytes after N polls, inputs'
@@ -155,9 +155,13 @@ def count_sites_in_source():
 
 def refine_leak(exe, case):
     """re-run one leaking case with the accurate (slow) unwinder -> list of allocating functions, [] if it does not leak again"""
-    impl, _ = run_one(exe, case, env=dict(ASAN_ENV, ASAN_OPTIONS=ASAN_ENV["ASAN_OPTIONS"] + ":fast_unwind_on_malloc=0"))
-    m = re.search(r"leak=1:(\S+)", impl)
-    return sorted({short(w) for w in m.group(1).split(",") if w}) if m else []
+    for attempt in range(3):
+        impl, _ = run_one(exe, case, env=dict(ASAN_ENV, ASAN_OPTIONS=ASAN_ENV["ASAN_OPTIONS"] + ":fast_unwind_on_malloc=0"))
+        m = re.search(r"leak=1:(\S+)", impl)
+        if m:
+            return sorted({short(w) for w in m.group(1).split(",") if w})
+        log("refine_leak: no leak token on attempt %d for %s: %s" % (attempt + 1, case, impl[:200]))
+    return []
 
 
 def run_one(exe, case, env=None):
@@ -232,9 +236,9 @@ def run(ctx):
                        "replay_cmd": "%s replay <file with the case line>" % exe}, signature=sig)
 
     # ---- (2) operations under ASan/LSan
-    # thorough: bigger inputs, all k <= 48 per input: ~12 s per (op, input) under ASan -> 44 per shard on up to 16 shards
+    # thorough: bigger inputs, all k when N <= 32: ~10 s per (op, input) under ASan -> 24 per shard on up to 16 shards
     oshards = shards if quick else min(verif.NPROC, 16)
-    n_inputs = oshards * (60 if quick else 44)
+    n_inputs = oshards * (60 if quick else 24)
     r = verif.run_stream(exe, "ops", ctx.seed, n_inputs, ctx.work, shards=oshards, driver_exe=DRV, env=ASAN_ENV,
                          harness_args=(ctx.tier,), timeout=3400)
     st = r["stats"]
